@@ -28,6 +28,11 @@ structure Cfg where
   sMaxItem : Nat
   /-- `Receiver::max_item_size` -/
   rMaxItem : Nat
+  /-- variant switch at the one step where the pinned tree diverges from the property (finding FB1):
+  `false` = the code as it is — in streamed mode `Receiver::recv` returns the item as soon as the
+  deserializer thread is satisfied, without looking at how the chunk stream ends;
+  `true` = repaired — it waits for the end of the message and discards the item on `Cancelled`. -/
+  strictEnd : Bool := false
 deriving Repr, DecidableEq
 
 /-- A value as seen by the channel. -/
@@ -48,10 +53,11 @@ deriving Repr, DecidableEq
 inductive PMsg where
   /-- a complete data message: the encoding of `it` -/
   | msg (it : Item)
-  /-- `n` bytes of a message whose transmission was abandoned.  `derr`: the receiver's
-  deserializer thread fails on these bytes and the receiver looks at its result before it
-  notices the abort (a race in the real code, resolved here when the token is created) -/
-  | partialMsg (n : Nat) (derr : Bool)
+  /-- `n` bytes of a message whose transmission was abandoned (no `last` frame).  `whole = some it`:
+  the bytes already are the complete encoding of `it` (only the end-of-message is missing).
+  `derr`: the receiver's deserializer thread fails on these bytes and the receiver looks at its
+  result before it notices the abort. -/
+  | partialMsg (whole : Option Item) (n : Nat) (derr : Bool)
   /-- the port-request batch for `k` embedded halves -/
   | requests (k : Nat)
   /-- `SendFinish`: the sender was dropped -/
@@ -74,7 +80,15 @@ inductive Abort where
   | inData (n : Nat)
   /-- after the data message, before the port-request batch is complete -/
   | beforePorts
+  /-- not the caller: the port is closed under the transmission (receiver closed / dropped, connection
+  lost) when `n` bytes are on the port (or, with all data sent, before the port batch is complete);
+  the call fails with `SendErrorKind::Send` -/
+  | closedAt (n : Nat)
 deriving Repr, DecidableEq
+
+def Abort.byClose : Abort → Bool
+  | .closedAt _ => true
+  | _ => false
 
 inductive ErrKind where
   | oversize      -- `RecvError::MaxItemSizeExceeded`
@@ -116,17 +130,30 @@ def bufAttempt (c : Cfg) (big : Int) (it : Item) : BufAttempt :=
     | none => if it.size ≤ c.sMaxData then .fits else .overflow
   else .skip
 
+/-- bytes of the encoding of `it` that the serializer can produce -/
+def avail (it : Item) : Nat :=
+  match it.serFail with
+  | some f => min f it.size
+  | none => it.size
+
+/-- An abandoned chunk stream that has carried `n` bytes of `it`.  `early`: the receiver's
+deserializer thread is done with these bytes (it has its item, or has failed) before the receiver
+notices the abort — a race in the real code, resolved here when the token is created. -/
+def abandoned (it : Item) (n : Nat) (early : Bool) : PMsg :=
+  .partialMsg (if early ∧ it.size ≤ min n (avail it) then some it else none) (min n (avail it)) (early && it.deFail)
+
 /-- the port-request phase after the complete data message -/
 def portsPhase (it : Item) (ab : Abort) : List PMsg × SendRes :=
   if it.halves = 0 then ([.msg it], .ok)
   else match ab with
     | .beforePorts => ([.msg it], .cancelled)
+    | .closedAt _ => ([.msg it], .closed)
     | _ => ([.msg it, .requests it.halves], .ok)
 
 /-- `Sender::send` while the port is open: new `big_data`, tokens put on the port, result.
-`derr` and `n0` resolve what the model does not determine: the deserializer race of an abandoned
+`early` and `n0` resolve what the model does not determine: the deserializer race of an abandoned
 stream, and how many bytes of an over-size streamed item were handed over before the size check. -/
-def sendItem (c : Cfg) (big : Int) (it : Item) (ab : Abort) (derr : Bool) (n0 : Nat) :
+def sendItem (c : Cfg) (big : Int) (it : Item) (ab : Abort) (early : Bool) (n0 : Nat) :
     Int × List PMsg × SendRes :=
   match bufAttempt c big it with
   | .serErr => (big, [], .serErr)
@@ -134,7 +161,9 @@ def sendItem (c : Cfg) (big : Int) (it : Item) (ab : Abort) (derr : Bool) (n0 : 
     let big1 := decBig big
     if it.size > c.sMaxItem then (big1, [], .oversize)
     else match ab with
-      | .inData n => (big1, [.partialMsg n derr], .cancelled)
+      | .inData n => (big1, [.partialMsg none n (early && it.deFail)], .cancelled)   -- whole-message `send`: the last bytes carry the `last` flag
+      | .closedAt n => if n < it.size ∨ it.halves = 0 then (big1, [.partialMsg none n (early && it.deFail)], .closed)
+                       else (big1, [.msg it], .closed)
       | _ => (big1, (portsPhase it ab).1, (portsPhase it ab).2)
   | .overflow => stream (incBig big)
   | .skip => stream big
@@ -142,14 +171,16 @@ where
   /-- streamed through the helper thread and a `ChunkSender` -/
   stream (big1 : Int) : Int × List PMsg × SendRes :=
     match ab with
-    | .inData n => (big1, [.partialMsg n derr], .cancelled)
+    | .inData n => (big1, [abandoned it n early], .cancelled)        -- possibly every byte, `finish` missing
+    | .closedAt n => if n < it.size ∨ it.halves = 0 ∨ it.serFail.isSome then (big1, [abandoned it n early], .closed)
+                     else (big1, [.msg it], .closed)
     | _ =>
       match it.serFail with
       | some f =>
-        if f > c.sMaxItem then (big1, [.partialMsg n0 derr], .oversize)
-        else (big1, [.partialMsg f derr], .serErr)
+        if f > c.sMaxItem then (big1, [.partialMsg none n0 (early && it.deFail)], .oversize)
+        else (big1, [abandoned it f early], .serErr)
       | none =>
-        if it.size > c.sMaxItem then (big1, [.partialMsg n0 derr], .oversize)
+        if it.size > c.sMaxItem then (big1, [.partialMsg none n0 (early && it.deFail)], .oversize)
         else
           let big2 := if it.size ≤ c.sMaxData then decBig big1 else big1
           (big2, (portsPhase it ab).1, (portsPhase it ab).2)
@@ -195,11 +226,19 @@ def rTok (c : Cfg) (r : RecvSt) (t : PMsg) : RecvSt × List RecvOut :=
     | none =>
       if it.halves = 0 then ({ r with pending := none }, [.value it])
       else ({ r with pending := some it }, [])
-  | .partialMsg n derr =>
+  | .partialMsg w n derr =>
     if n ≤ c.rMaxData then (r, [])                      -- swallowed inside `recv_any`
     else if n > c.rMaxItem then ({ r with pending := none }, [.itemErr .oversize])
-    else if derr then ({ r with pending := none }, [.itemErr .deser])
-    else ({ r with pending := none }, [])               -- `Cancelled` → `continue 'restart`
+    else match c.strictEnd, w with
+      | false, some it =>
+        -- pinned tree (FB1): the deserializer thread has its item, `tx.reserve()` fails, the feed loop
+        -- ends with `Ok(())` and the item is taken although the message was never finished
+        if it.deFail then ({ r with pending := none }, [.itemErr .deser])
+        else if it.halves = 0 then ({ r with pending := none }, [.value it])
+        else ({ r with pending := some it }, [])
+      | _, _ =>
+        if derr then ({ r with pending := none }, [.itemErr .deser])
+        else ({ r with pending := none }, [])           -- `Cancelled` → `continue 'restart`
   | .finish => ({ pending := none, finished := true }, [])
 
 /-- The receiver consumes a sequence of tokens. -/
@@ -263,8 +302,10 @@ def step (c : Cfg) (st : State) : Label → Option State
       let x := sendClosed c st.big it
       some { st with big := x.1, log := st.log ++ [{ item := it, res := x.2, toks := [] }] }
     else
+      if ab.byClose = true ∧ ¬(st.rClosed ∨ st.lost) then none else
       let x := sendItem c st.big it ab derr n0
       some { st with big := x.1, port := if st.lost then st.port else st.port ++ x.2.1,
+                     sClosed := st.sClosed || ab.byClose,
                      log := st.log ++ [{ item := it, res := x.2.2, toks := x.2.1 }] }
   | .deliver =>
     if st.ended.isSome then none else
